@@ -54,6 +54,10 @@ impl Gs {
     }
 }
 
+/// the adapter built directly, or by the application's factory behind its wrapper
+enum Ad { Direct(AgonesDiscoveryAdapter), App(passage::adapter::discovery::DynDiscoveryAdapter) }
+impl Ad { async fn discover(&self) -> passage_adapters::Result<Vec<passage_adapters::Target>> { match self { Ad::Direct(a) => a.discover().await, Ad::App(a) => a.discover().await } } }
+
 #[derive(Clone, Debug)]
 enum Ev { Add(Gs), Modify(Gs), Delete(Gs), Bookmark, Relist(Vec<Gs>),
     /// 410 Gone, then a paged re-list whose first page (these objects) arrives and whose second page fails;
@@ -122,7 +126,7 @@ fn gen_gs(rng: &mut Rng, name: &str) -> Gs {
         has_status: kind != 2, namespace: "default".into() }
 }
 
-async fn wait_for(adapter: &AgonesDiscoveryAdapter, pred: impl Fn(&[passage_adapters::Target]) -> bool, ms: u64) -> Option<Vec<passage_adapters::Target>> {
+async fn wait_for(adapter: &Ad, pred: impl Fn(&[passage_adapters::Target]) -> bool, ms: u64) -> Option<Vec<passage_adapters::Target>> {
     let deadline = tokio::time::Instant::now() + Duration::from_millis(ms);
     loop {
         let ts = adapter.discover().await.unwrap();
@@ -187,7 +191,9 @@ pub fn run(a: &Args) {
             std::fs::write(&kubeconfig, format!("apiVersion: v1\nkind: Config\nclusters:\n- name: m\n  cluster:\n    server: http://127.0.0.1:{port}\ncontexts:\n- name: m\n  context:\n    cluster: m\n    user: m\ncurrent-context: m\nusers:\n- name: m\n  user: {{}}\n")).unwrap();
             // SAFETY: single scenario at a time
             unsafe { std::env::set_var("KUBECONFIG", &kubeconfig); }
-            let adapter = AgonesDiscoveryAdapter::new(None, Default::default()).await.expect("agones adapter");
+            // every other history through the application's factory and wrapper (its own watcher configuration: bookmarks, pages of 500)
+            let adapter = if n % 2 == 1 { Ad::App(passage::adapter::discovery::DynDiscoveryAdapter::from_config(passage::config::DiscoveryAdapter::Agones(passage::config::AgonesDiscovery { namespace: None, label_selector: None, field_selector: None })).await.expect("agones adapter through the factory")) }
+                else { Ad::Direct(AgonesDiscoveryAdapter::new(None, Default::default()).await.expect("agones adapter")) };
             let mut snaps = vec![];
             let mut model: Vec<String> = vec!["init".into()];
             let mut store: BTreeMap<(String, String), Gs> = BTreeMap::new();
